@@ -21,11 +21,19 @@ func execScn(t *testing.T, sc *Scn, cfg simrt.Config) (*simrt.Result, *Obs) {
 func run(t *testing.T, prop string, x any, cfg simrt.Config) *eng.Outcome {
 	sc := x.(*Scn)
 	res, obs := execScn(t, sc, cfg)
-	mod := runModel(sc)
+	var mod *Model
+	switch prop {
+	case "C05", "C11", "C20":
+		// these oracles relate the log to the uncancelled run
+		mod = runModelUncancelled(sc)
+	default:
+		mod = runModel(sc)
+	}
 	o := &eng.Outcome{Res: res, Faults: map[string]int{}, Probes: map[string]int{}}
 	c := &octx{prop: prop, sc: sc, mod: mod, obs: obs, res: res, out: o}
-	if mod.TooLong {
-		// the generator bounds paths; a shrink candidate may not: not a verdict
+	if mod.TooLong || mod.Unpredicted {
+		// the generator bounds paths and keeps cancellations out of batches for
+		// the exact oracles; a shrink candidate may not: not a verdict
 		return o
 	}
 	o.V = oracle(c)
